@@ -33,6 +33,9 @@ LEAN_TARGETS = [
     # regex tie (generic engine on the ASTs generated from molecular_formula.py)
     "QcelVerif.Model.RegexFindall", "QcelVerif.Lemmas.RegexFindall", "QcelVerif.Gen.FormulaRegex", "QcelVerif.Model.FormulaRe",
     "QcelVerif.Lemmas.FormulaRe", "QcelVerif.Props.C15Regex",
+    # source tie (bodies of get_fragment / nelectrons / nuclear_repulsion_energy / molecular_formula_from_symbols regenerated
+    # from the source as AST terms, evaluator, equality with the hand models)
+    "QcelVerif.Model.FragmentsAst", "QcelVerif.Gen.FragmentsSrc", "QcelVerif.Model.FragmentsSrc", "QcelVerif.Props.C15Src",
 ]
 DRIVER = "QcelVerif/Driver/C15.lean"
 
@@ -203,7 +206,16 @@ def gen_formula_regex(ctx=None):
         f.write_text(body)
 
 
-TRANSLATORS = [regen_periodic_table, gen_formula_regex]
+def gen_fragments_src(ctx=None):
+    """lean/QcelVerif/Gen/FragmentsSrc.lean <- the bodies of Molecule.get_fragment / nelectrons / nuclear_repulsion_energy
+    (models/molecule.py, by name) and molecular_formula_from_symbols (molutil/molecular_formula.py), statement by statement,
+    as terms of Model/FragmentsAst.lean (harness/c15_src.py; any unknown construct raises)"""
+    import c15_src
+
+    c15_src.gen_fragments_src(ctx)
+
+
+TRANSLATORS = [regen_periodic_table, gen_formula_regex, gen_fragments_src]
 THEOREMS = [
     ("QcelVerif.Fragments.grouped_atoms_conserved", "group_fragments=True: the atoms handed to the constructor are exactly the atoms of the real fragments then of the ghost fragments, in the order requested (index by index); flags true.. then false..; new index lists have the sizes of the chosen fragments and concatenate to 0..n'-1"),
     ("QcelVerif.Fragments.ordered_atoms_conserved", "group_fragments=False, no atom in two fragments: atoms = the parent's atoms whose fragment is in real or ghost, in original order, each once; flag = (its fragment is in real)"),
@@ -263,10 +275,32 @@ THEOREMS = [
     ("QcelVerif.Formula.parse_render_re", "parse_render restated over the generated regexes: findall/match (engine on the source's patterns) + the dict fold applied to render(tokens) give the tokens back (KeyOK keys, distinct, positive counts)"),
     ("QcelVerif.Formula.order_formula_of_formula_re", "order_formula_of_formula restated over the generated regexes: all WFSym symbol lists, all o, o': order_molecular_formula(formula(syms, o), o') = formula(syms, o') character for character"),
     ("QcelVerif.Formula.order_formula_periodic_re", "order_formula_periodic restated over the generated regexes: every list of periodic-table symbols, no hypothesis left"),
+    # --- source tie: the bodies regenerated from molecule.py / molecular_formula.py as AST terms (Gen/FragmentsSrc.lean), run by the evaluator of Model/FragmentsAst.lean
+    ("QcelVerif.FragSrc.gf_shape", "[regenerated from molecule.py, rfl] the generated body of get_fragment is the statement list the lemmas are about (argument normalisation, overlap test, initialisations, `if group_fragments:` with the grouped and the order-preserving branch, the constructor_dict assignments), with its slot numbers; `orient` is passed to the constructor unchanged"),
+    ("QcelVerif.FragSrc.gf_pre", "source-derived get_fragment, list arguments without a common fragment number: the statements before `if group_fragments:` leave the empty accumulators, and the body continues with the branch chosen by group_fragments followed by the constructor_dict assignments"),
+    ("QcelVerif.FragSrc.srcExtract_grouped_run", "source-derived get_fragment, group_fragments=True, ANY molecule and any lists of valid fragment numbers (no common element, not both empty), any orient: the generated body runs to the constructor call and constructor_dict holds exactly: symbols = masses = geometry rows = atoms of the real fragments then of the ghost fragments in the order requested, flags true.. false.., fresh index ranges, real fragments' charges/multiplicities then (0,1) per ghost, totals = sum of the real charges / high-spin sum"),
+    ("QcelVerif.FragSrc.srcExtract_grouped_eq_model", "under the same hypotheses the hand model extractGrouped succeeds and returns the same record (the three per-atom index lists of the source-derived body agree and are the rows of the model's atom list): the source-derived grouped path equals Model/Fragments.lean"),
+    ("QcelVerif.FragSrc.srcExtract_ordered_partial", "PARTIAL (tests by kernel evaluation on a 5-atom, 3-fragment molecule with a ghost atom): the generated order-preserving path (at2fr loop, atom loop, ghost marking `ifr in real`, at2at remap, fragment loop) returns the expected record, agrees with the model's extractOrdered on three selections and refuses an overlap; the universal statement is not proved (three-way differential instead)"),
+    ("QcelVerif.FragSrc.srcExtract_args_partial", "PARTIAL (tests by kernel evaluation): `real` given as an int and `ghost` as None / an int are normalised to lists by the generated body (same record as with list arguments), and the grouped record is groupedCtor"),
+    ("QcelVerif.FragSrc.srcNelectrons_eq", "source-derived nelectrons() = the model nelectrons for EVERY molecule: sum(Z*real) - molecular_charge"),
+    ("QcelVerif.FragSrc.srcNelectronsFrag_eq", "source-derived nelectrons(k) = the model nelectronsFrag for every molecule and every k that has a fragment and a fragment charge (the enumerate / `iat in fragments[k]` comprehension)"),
+    ("QcelVerif.FragSrc.srcNelectrons_fragment", "nelectrons_fragment restated over the source-derived body: duplicate-free fragment -> sum of Z over its atoms flagged real - fragment charge"),
+    ("QcelVerif.FragSrc.nre_shape", "[regenerated from molecule.py, decide] the generated body of nuclear_repulsion_energy is: Zeff comprehension, atoms = range(n), `if ifr is not None: atoms = fragments[ifr]`, nre = 0.0, the double loop enumerate(atoms) / atoms[:iat1] with dist = norm(geometry[at1] - geometry[at2]) and nre += Zeff[at1]*Zeff[at2]/dist; returns nre"),
+    ("QcelVerif.FragSrc.triSum_eq", "any field: adding, for every atom in turn, its terms with all EARLIER atoms (the source's loop order, from any prefix) = the cross terms with the prefix + the model's pair sum"),
+    ("QcelVerif.FragSrc.srcNre_eq", "source-derived nuclear_repulsion_energy(ifr) = the model's pair sum nreMol, over ANY field and ANY distance function, any molecule whose walked atoms have a Zeff entry: ifr=None walks range(n), ifr=k walks fragments[k]"),
+    ("QcelVerif.FragSrc.srcNre_whole", "whole-molecule call of the source-derived body = the model's nreMol ... none"),
+    ("QcelVerif.FragSrc.srcNre_fragment", "nre_fragment restated over the source-derived loops: energy of fragment k = pair sum over its atoms with non-zero Z*real (ghosts contribute nothing, atoms outside do not enter)"),
+    ("QcelVerif.FragSrc.srcNre_perm", "nre_perm_invariant restated over the source-derived loops: two fragments listing the same atoms in different orders have the same energy (symmetric distance)"),
+    ("QcelVerif.FragSrc.srcNre_rigid", "nre_rigid_invariant restated over the source-derived loops: a geometry with the same pair distances gives the same energy"),
+    ("QcelVerif.FragSrc.formula_shape", "[regenerated from molecular_formula.py, rfl] the statements between sorted(count.keys()) and the output loop are `if order == 'hill' and 'C' in element_order: [if 'H' in element_order: H to front]; C to front`, and the output loop appends k, then str(c) if c > 1"),
+    ("QcelVerif.FragSrc.srcElementOrder_eq", "the generated rearrangement run on any key list = the model's elementOrder (alphabetical: unchanged; hill: hillOrder C H), never raises"),
+    ("QcelVerif.FragSrc.srcFromSymbols_eq", "source-derived molecular_formula_from_symbols = the model fromSymbols for EVERY symbol list and both orders, character for character"),
+    ("QcelVerif.FragSrc.order_formula_of_formula_src", "order_formula_of_formula restated over the source-derived writer: re-ordering what it writes in convention o into o' gives what it writes in o' (WFSym symbols)"),
 ]
 TRUSTED_BASE = [
     "Lean 4.33 kernel; axioms per theorem audited on every run (subset of propext, Classical.choice, Quot.sound)",
     "hand-written models Model/Fragments.lean (get_fragment both paths, defaults, nelectrons() and nelectrons(ifr), NRE pair sum for the molecule and for one fragment) and Model/Formula.lean (render, title, dict accumulation; its two regex cuts are PROVED equal to the source's patterns run by the generic engine, see below), tied by differential correspondence on the generated stream; get_fragment(orient=True) results are compared with the model's index lists directly as well (geometry up to the rigid motion: pair distances within 1e-6)",
+    "SOURCE TIE (new): harness/c15_src.py reads models/molecule.py (Molecule.get_fragment / nelectrons / nuclear_repulsion_energy, located by name) and molutil/molecular_formula.py (molecular_formula_from_symbols) by `ast` on every run and re-encodes their bodies statement by statement as terms of the AST of Model/FragmentsAst.lean (Gen/FragmentsSrc.lean; any construct outside the list in that file raises). REGENERATED + PROVED equal to the hand model for all inputs: nelectrons() and nelectrons(k); the NRE double loop (any field, abstract distance; atoms walked must have a Zeff entry); molecular_formula_from_symbols (all symbol lists, both orders); get_fragment's group_fragments=True path for every molecule and all lists of valid fragment numbers (fragment number has a fragment with existing atoms, a charge and a multiplicity) without overlap, not both empty. REGENERATED + DIFFERENTIAL ONLY (three-way driver lines sgf/sne/snre/sfs on every generated case, plus kernel-evaluated tests): get_fragment's group_fragments=False path, the int / None argument forms, and every error outcome (IndexError, overlap TypeError, np.vstack([]) ValueError: the evaluator only says `raises`). Trusted in the translator: the re-encoding itself (ast -> term, slot numbering), `self.symbols/masses/geometry[i]` read as the row reference i with IndexError outside 0..n-1, bool as 0/1, `float()/int()/cast()` of integers as identity, negative indices out of scope, the sub-molecule's `name` statements skipped, `return Molecule(orient=orient, **constructor_dict)` checked for shape only (the constructor is Model/Fragments.construct = C05's vfc), and for the formula function the head (order.lower(), supported-order test, Counter of title(), sorted keys) compared with a fixed template; the evaluator's semantics (Model/FragmentsAst.lean) is hand-written Lean, tied to CPython by the three-way lines",
     "the constructor's charge/multiplicity validation is C05's model ChgMult.vfc (its own correspondence is C05's)",
     "symbols/masses/geometry are one per-atom payload list in the model (the code indexes the three arrays with the same index); the harness compares each array separately against the model's index list",
     "NRE theorems are over an arbitrary field and an abstract distance function; the driver evaluates the pair sum exactly over Rat on the distances numpy computed; float rounding of the implementation is bounded by a stated tolerance",
@@ -284,6 +318,7 @@ ASSUMPTIONS = [
     "order_molecular_formula on a formula with a count of four or more digits is not sent through the whole function (it materialises `count` copies of the symbol: 'C9999999999' exhausts memory) — such strings go through the cut/spl regex lines only",
     "ASCII symbols for the formula functions; the string-level theorems assume title-cased symbols of the shape [A-Z][a-z]* (discharged for the whole periodic table; any-case words of ASCII letters reduce to it); a key containing a digit, a second capital or a letter after a non-letter is outside them (counter-example in the Lean file)",
     "NRE additivity over fragments is false (nre_not_additive) and is not part of the property",
+    "source-derived procedures: integer-valued Python scalars only (bool = 0/1), no negative indices; the universal get_fragment theorem is about list arguments and the grouped path; orientation and the constructor are outside the generated body",
 ]
 RULE = (
     "parents: random validated molecules, 1-5 fragments of 1-3 atoms, ghost atoms / whole ghost fragments, charged and open-shell fragments, "
@@ -294,7 +329,8 @@ RULE = (
     "two/three-digit count and in random multisets over the whole table, + random formula strings for order_molecular_formula + near-miss strings (lower-case first letter, digit first, empty, 'CH3(OH)', "
     "blanks, signs, leading zeros, control characters); every order_molecular_formula call goes three ways (CPython, hand model, regex-engine model); every distinct formula string seen + the near misses + random "
     "ASCII strings (all 128 code points) go through re.findall / re.match three ways, the whole text and each chunk through the split; engine probes against re.finditer. Per-fragment calls: nelectrons(k) and "
-    "nuclear_repulsion_energy(k) for every fragment of every parent (about a third of the multi-atom parent fragments mix real and ghost atoms; a forced-mixed parent stream) and of every heavy-checked child."
+    "nuclear_repulsion_energy(k) for every fragment of every parent (about a third of the multi-atom parent fragments mix real and ghost atoms; a forced-mixed parent stream) and of every heavy-checked child. "
+    "Every gf / ne / nre / fs line is sent a second time as sgf / sne / snre / sfs: same arguments, answered by the bodies regenerated from the source (Lean AST evaluator), compared with the implementation by the same comparator (three-way: CPython, hand model, source-derived procedure)."
 )
 LEVEL_TEXT = (
     "Lean proofs (unbounded sizes) about the model of get_fragment / nelectrons (molecule and per fragment) / NRE pair sum (molecule and per fragment: real nuclei of the "
@@ -304,9 +340,12 @@ LEVEL_TEXT = (
     "over-subsets differential runs on generated molecules (orient=False AND orient=True results against the model's index lists) and by the formula streams. The two regexes of "
     "order_molecular_formula are regenerated from the source on every run (CPython's parse trees, entry points, groups read; whole function body shape-checked) and the hand cuts are PROVED equal, for every "
     "string, to a generic regex engine (match + findall) run on them, so the string-level theorems hold of the source's own patterns; that this engine reproduces CPython's re on ASCII, "
-    "str.title/str(int)/int(str), pydantic construction, orientation and float arithmetic are differential only (partial)."
+    "str.title/str(int)/int(str), pydantic construction, orientation and float arithmetic are differential only (partial). "
+    "NEW: the bodies of get_fragment, nelectrons, nuclear_repulsion_energy and molecular_formula_from_symbols are regenerated from the source on every run as terms of a small statement/expression AST and run by a Lean evaluator; "
+    "proved equal to the hand model for ALL inputs: nelectrons (molecule and fragment), the NRE double loop (any field, abstract distance), molecular_formula_from_symbols, and get_fragment's group_fragments=True path "
+    "(valid, non-overlapping requests); headline theorems restated over them. The group_fragments=False path, the int/None argument forms and all error outcomes of the generated body are tied three-way by differential lines and kernel-evaluated tests only (partial)."
 )
-TECHNIQUE = "Lean 4 proof of list/partition/sum theorems about a hand model + regexes regenerated from the source and proved equal to the hand cuts through a generic regex engine + behavioural correspondence + independent oracle"
+TECHNIQUE = "Lean 4 proof of list/partition/sum theorems about a hand model + regexes regenerated from the source and proved equal to the hand cuts through a generic regex engine + method bodies regenerated from the source as AST terms, evaluator, loop-invariant proofs of equality with the hand model + behavioural correspondence (three-way) + independent oracle"
 
 ALPHABET = ["C", "H", "Ca", "Cl", "He", "Hf", "B", "Br", "N", "O", "Zn", "Ar"]
 ELEMS = ["H", "H", "H", "He", "Li", "Be", "B", "C", "C", "N", "O", "O", "F", "Ne", "Na", "Mg", "Al", "Si", "P", "S", "Cl", "Ar", "K", "Ca", "Fe", "Cu", "Zn", "Br", "Kr", "I", "Xe", "Au", "U"]
@@ -608,9 +647,15 @@ class Pending:
         self.lines = []
         self.expect = []  # (kind, payload, case)
 
+    # ops that have a source-derived twin in the driver (`s` + op): same arguments, same answer format, same comparison
+    SRC_TWINS = ("gf|", "ne|", "nre|", "fs|")
+
     def add(self, line, kind, payload, case):
         self.lines.append(line)
         self.expect.append((kind, payload, case))
+        if line.startswith(self.SRC_TWINS):
+            self.lines.append("s" + line)
+            self.expect.append((kind, payload, case))
 
 
 def call_get_fragment(parent, R, G, group, orient):
@@ -1196,7 +1241,9 @@ def compare(ctx, out: Outcome, pend: Pending):
     for line, (kind, payload, case), ml in zip(pend.lines, pend.expect, model):
         bad = None
         if kind == "gf_err":
-            if ml != "err " + payload:
+            if line.startswith("sgf|") and ml == "err src" and payload in ("other:TypeError", "other:IndexError", "other:ValueError"):
+                pass  # the AST evaluator says "Python raises here" without naming the exception class (the hand-model line does)
+            elif ml != "err " + payload:
                 bad = ("err " + payload, ml)
         elif kind == "gf_ok":
             atoms_c, rest_c, parent_atoms = payload
@@ -1218,6 +1265,8 @@ def compare(ctx, out: Outcome, pend: Pending):
         elif kind == "nre":
             if not ml.startswith("ok "):
                 bad = (payload, ml)
+            elif not math.isfinite(payload):
+                bad = (repr(payload), ml)  # inf / nan from the implementation: the model's exact pair sum is a rational
             else:
                 ex = parse_rat(ml[3:])
                 if not (abs(Fraction(payload) - ex) <= Fraction(1, 10**12) * max(1, abs(ex))):
@@ -1240,7 +1289,7 @@ def compare(ctx, out: Outcome, pend: Pending):
         elif kind == "gf_ok_orient":
             bad = compare_orient(payload, ml)
         if bad is not None:
-            out.mismatches.append(Finding("mismatch", dict(case, line=line), observed=bad[0], expected=bad[1], detail="implementation vs Lean model (%s)" % kind))
+            out.mismatches.append(Finding("mismatch", dict(case, line=line), observed=bad[0], expected=bad[1], detail="implementation vs %s (%s)" % ("the source-derived procedure (AST regenerated from the source, Lean evaluator)" if line[:1] == "s" and line.split("|")[0] in ("sgf", "sne", "snre", "sfs") else "Lean model", kind)))
 
 
 # --------------------------------------------------------------------------------------
